@@ -121,7 +121,7 @@ def run(tier, seed):
 
 
 def _allowed(choice, tool):
-    return {"none": False, "fn_ls": tool == "ls", "allowed_write": tool == "write"}.get(choice, True)
+    return {"none": False, "allowed_hosted_only": False, "fn_ls": tool == "ls", "allowed_write": tool == "write"}.get(choice, True)
 
 
 def _short(script):
